@@ -731,6 +731,50 @@ def check_leak(case, ctx: Ctx):
 
 
 @st.composite
+def order_cases(draw):
+    n = draw(st.integers(2, 3))
+    labels = draw(st.sampled_from([list(range(n)), list(range(n))[::-1], ["b", "a", "c"][:n], [2, 0, 1][:n] if n == 3 else [1, 0],
+                                   [11, 1, 12][:n]]))
+    if draw(st.booleans()):
+        labels = list(draw(st.permutations(labels)))
+    return dict(labels=labels, target=draw(st.integers(0, n - 1)), basis=draw(st.sampled_from(["ground-rydberg", "digital"])))
+
+
+def check_order(case, ctx: Ctx):
+    """A pi pulse on ONE atom through a local channel: the bit that reads 1 is at that atom's
+    position in the register (legacy sampling distribution and V2 BitStrings)."""
+    from pulser import Pulse, Register, Sequence
+    from pulser.backend import BitStrings
+    from pulser.devices import MockDevice
+    from pulser_simulation import QutipBackendV2, QutipConfig, QutipEmulator
+
+    C = "C11.bitstrings"
+    labels = case["labels"]
+    n = len(labels)
+    reg = Register({lab: (40.0 * i, 0.0) for i, lab in enumerate(labels)})
+    seq = Sequence(reg, MockDevice)
+    tgt = labels[case["target"]]
+    seq.declare_channel("loc", "rydberg_local" if case["basis"] == "ground-rydberg" else "raman_local",
+                        initial_target=[tgt])
+    seq.add(Pulse.ConstantPulse(500, 2 * math.pi, 0.0, 0.0), "loc")  # area pi
+    want = "".join("1" if i == case["target"] else "0" for i in range(n))
+    ctx.nontrivial(any(isinstance(x, int) for x in labels) and labels != list(range(n)))
+    ctx.label("int_labels" if isinstance(labels[0], int) else "str_labels")
+    leg = ctx.must(lambda: QutipEmulator.from_sequence(seq).run(), C, "legacy run")
+    dist = list(leg)[-1].sampling_dist
+    best = max(dist, key=dist.get)
+    if best != want or dist[best] < 0.99:
+        ctx.fail(C, "register_order:legacy", f"labels {labels}, pi pulse on {tgt!r} (position {case['target']}): "
+                                           f"sampling distribution {dict(dist)}, expected {want}")
+    res = ctx.must(lambda: QutipBackendV2(seq, config=QutipConfig(observables=[BitStrings(num_shots=200)])).run(),
+                   C, "V2 run")
+    cnt = dict(res.bitstrings[-1])
+    bestv = max(cnt, key=cnt.get)
+    if str(bestv) != want:
+        ctx.fail(C, "register_order:v2", f"labels {labels}, pi pulse on {tgt!r}: counts {cnt}, expected {want}")
+
+
+@st.composite
 def devnoise_cases(draw):
     return dict(eps=draw(st.sampled_from([0.0, 0.1, 0.3])), epsp=draw(st.sampled_from([0.0, 0.2, 0.5])),
                 excited=draw(st.booleans()), via=draw(st.sampled_from(["device", "device", "config"])),
@@ -836,6 +880,10 @@ CLAUSES = [
            budget={"quick": (16, 8), "thorough": (16, 120)},
            doc="V2 backend with output modulation: relative evaluation times refer to the duration "
                "including the fall time; states agree with the legacy emulator at those times"),
+    Clause("register_order", check_order, gen=lambda t: order_cases(),
+           budget={"quick": (4, 8), "thorough": (16, 40)},
+           doc="a pi pulse on one atom (labels: strings, integers in and out of order): the 1 is at that atom's "
+               "register position, legacy and V2"),
     Clause("device_noise_model", check_devnoise, gen=lambda t: devnoise_cases(),
            budget={"quick": (4, 6), "thorough": (16, 30)},
            doc="detection errors given through the device's default noise model (prefer_device_noise_model) "
